@@ -593,7 +593,11 @@ func ToEntry(n Node) (e *Entry) {
 	// Copy in the extensions from our Node, if any.
 	defer func(n Node) {
 		if e != nil {
-			e.Exts = append(e.Exts, n.Exts()...)
+			// e may be a copy (the entry of a uses statement is a copy
+			// of the grouping's) whose list still shares its array with
+			// the original: append into a full slice so that the
+			// original and the other copies are never written.
+			e.Exts = append(e.Exts[:len(e.Exts):len(e.Exts)], n.Exts()...)
 		}
 	}(n)
 
